@@ -45,7 +45,7 @@ PARSE_ERR = b'{"jsonrpc":"2.0","id":null,"error":{"code":-32700,"message":"Parse
 
 def gen_messages(ctx):
     rng = ctx.rng
-    n = ctx.scale(3000, 150000)
+    n = ctx.scale(12000, 150000)
     msgs = []
 
     def add(m, tag):
@@ -94,6 +94,9 @@ def oracle_single(ctx, transport, cfg, msg, o, tag):
     """C01 restated on the implementation's output alone"""
     case = {"transport": transport, "cfg": cfg, "msg_hex": msg.hex(), "msg": S.show(msg), "tag": tag}
     reps = S.replies_of(transport, o)
+    sn = S.sniffed(msg)
+    if sn is not None and sn[0] == "batch":
+        return "batch"      # C02's
     if len(reps) > 1:
         ctx.fail("oracle", "more-than-one-reply", case, [r.decode("latin1") for r in reps])
         return
@@ -103,7 +106,6 @@ def oracle_single(ctx, transport, cfg, msg, o, tag):
             return
     if not o["alive"]:
         ctx.fail("oracle", "connection-stops-serving", case, "no answer to a later call on the same connection")
-    sn = S.sniffed(msg)
 
     def expect_error(codes, want_id, why):
         if len(reps) != 1:
@@ -122,8 +124,6 @@ def oracle_single(ctx, transport, cfg, msg, o, tag):
         expect_error((-32700,), None, "first non-whitespace byte inside the window is neither { nor [")
         expect_log([])
         return "garbage"
-    if sn[0] == "batch":
-        return "batch"
     text = sn[1]
     try:
         v, isjson = S.parse_domain(text)
@@ -161,7 +161,7 @@ def run(ctx):
     ctx.engines = ["srvmsg (harness/src/bin/srvmsg.rs vs modelrun/server_driver.ml over coq/Model/Server.v), single messages, HTTP + WebSocket"]
     rng = ctx.rng
     msgs = gen_messages(ctx)
-    n_ws = ctx.scale(600, 20000)
+    n_ws = ctx.scale(2500, 20000)
     cases = [("http", "u", m, tag) for m, tag in msgs]
     ws_pick = rng.sample(range(len(msgs)), min(n_ws, len(msgs)))
     for i in ws_pick:
@@ -190,7 +190,7 @@ def run(ctx):
     for m, d in by_msg.items():
         if "http" in d and "ws" in d:
             (oh, cls), (ow, _) = d["http"], d["ws"]
-            if cls in ("batch", "call:sub", "call:unsub"):
+            if cls in ("batch", "call:sub", "call:unsub") or (cls == "out-of-oracle-domain" and b"sub" in m):
                 continue
             if S.replies_of("http", oh) != S.replies_of("ws", ow) or oh["log"] != ow["log"]:
                 ctx.fail("oracle", "ws-http-disagree", {"msg_hex": m.hex(), "msg": S.show(m)},
